@@ -74,6 +74,14 @@ def worker(spec):
         def close(s, *e):
             pass
 
+        def __repr__(s):
+            # hostile but legal: describing an entry has a side effect on the very stack being unfolded
+            hook = getattr(s, "repr_hook", None)
+            if hook is not None:
+                s.repr_hook = None
+                hook()
+            return "<S %s>" % ("falsy" if s.falsy else "truthy")
+
     class A(object):
         def __init__(s, falsy=False):
             s.falsy = falsy
@@ -164,6 +172,7 @@ def worker(spec):
         regs = []
         for _ in range(rng.randint(0, 4)):
             m = rng.choice(["enter_context", "push_cm", "push_fn", "push_meth", "callback", "again"] +
+                           (["mutating_repr"] if rng.random() < 0.08 else []) +
                            (["enter_async_context", "push_async_exit_cm", "push_async_exit_fn", "push_async_exit_meth",
                              "push_async_callback"] if k == "AES" else []))
             sub = None
@@ -231,6 +240,15 @@ def worker(spec):
                     st.callback(bm, 1)
                     exp.append(("callback", bm, False, None))
                     res.count("same_object_registered_twice")
+            elif meth == "mutating_repr":
+                # entry whose repr() registers one more callback on this same stack while stackscope is
+                # iterating over the registered callbacks
+                o = S(False)
+                o.repr_hook = (lambda st=st: st.callback(fn, "late"))
+                st.push(o.close)
+                exp.append(("push", o, False, None))
+                holder_mut.append(st)
+                res.count("registrations_mutated_during_unfolding")
             elif meth == "push_fn":
                 st.push(fn)
                 exp.append(("push", fn, False, None))
@@ -263,6 +281,7 @@ def worker(spec):
         return st, ("stack", st, k == "AES", exp)
 
     problems = []
+    holder_mut = []
 
     def check(ctx, exp, path, exiting=False):
         kind = exp[0]
@@ -299,6 +318,10 @@ def worker(spec):
                 check(c, e, path + (i,))
         else:
             kids = ctx.children
+            if any(exp[1] is m_ for m_ in holder_mut) and len(kids) > len(exp[3]):
+                # the stack grew (at its end) while it was being unfolded, now or during an earlier
+                # observation: the callbacks registered by the harness come first, in order
+                kids = kids[: len(exp[3])]
             if len(kids) != len(exp[3]):
                 problems.append((path, "children count %d != %d registered callbacks" % (len(kids), len(exp[3]))))
                 return
@@ -372,6 +395,7 @@ def worker(spec):
                     regs.append(("enter_async_context", ("ag1", gen(2, True))))
             node = (k, regs)
         desc = repr(node)
+        del holder_mut[:]
         holder = {"mode": mode}
         co = main(node, holder)
         res.evaluations += 1
